@@ -1067,13 +1067,12 @@ Verdict judge_c19(const Plan &plan, const sim::Shm *shm, const ChildExit &, cons
                "output-not-configured/stdout");
 
     // colour: a sink colours a whole line iff colour is configured and the descriptor is a terminal
+    // A sink colours a line iff colour is configured for it and the descriptor is a terminal. Which escape
+    // sequences it uses is not laid down: a line counts as coloured when it carries sequences beyond the
+    // message's own, and then it must begin with one (the whole line is coloured, the text is intact).
     auto coloured_whole = [&](const Line &l) {
         const Call19 &c = calls[l.cid];
-        std::string pre = color_prefix(c.op->a);
-        static const std::string reset = "\033[0m";
-        return l.raw.size() >= pre.size() + reset.size() && l.raw.compare(0, pre.size(), pre) == 0
-                && l.raw.compare(l.raw.size() - reset.size(), reset.size(), reset) == 0
-                && strip_ansi(l.raw.substr(pre.size(), l.raw.size() - pre.size() - reset.size())) == l.plain;
+        return l.nseq > c.own_seq && l.raw.size() > 2 && l.raw[0] == '\033' && l.raw[1] == '[';
     };
     if (cfg.ini && v.ok) {
         for (auto &l : out_lines) {
